@@ -746,6 +746,16 @@ func runEngine(kind string, a []string) string {
 	for i := 1; i <= int(c.opt["inst"]); i++ {
 		e.shutdown(i)
 	}
+	// C11: once Stop has returned no adapter is called again, and everything that was opened has been closed
+	select {
+	case req := <-e.s.reqCh:
+		req.resume <- dCancel
+		out = append(out, "API=-3")
+	case <-time.After(2 * time.Millisecond):
+	}
+	if e.s.openReceivers.Load() != 0 || e.s.openSenders.Load() != 0 {
+		out = append(out, "API=-4")
+	}
 	return strings.Join(out, " ")
 }
 
